@@ -155,8 +155,12 @@ def streams(tier, rng, P, only=None, cases=None):
                 # PLAY: the parts start where the command stands (on tracks that may not exist yet), so they shift with it
                 parts = [mml.gen_cmds(rng, 1, rng.choice([1, 2, 3]), top=False) for _ in range(rng.randrange(1, 4))]
                 prog = prog + [('play', parts)] + mml.gen_cmds(rng, 0, rng.randrange(0, 3), top=False)
+            if rng.random() < 0.3:
+                # ramps written from the pointer onwards (tempo, controller, bend): every step of the ramp shifts with the pointer, also off the beat grid
+                prog = list(prog); prog.insert(rng.randrange(0, len(prog) + 1), ('raw', rng.choice(["TempoChange(80,120,!4)", "TempoChange(100,!2)", "TempoChange(140,90,!1)", "y7.onTime(0,127,!8)",
+                                                                                                       "p.onTime(0,64,!16)", "y11.T(127,0,!4)", "TempoChange(60,61,%50)"])))
             src = mml.pr(prog)
-            L = rng.choice(["1", "4", "8.", "2^8", "%37", "16", ""])
+            L = rng.choice(["1", "4", "8.", "2^8", "%37", "16", "", "%5", "12"])
             if rng.random() < 0.25:
                 # a reverse rest `r-L` (after a whole-note rest, so that nothing is pushed before tick 0): the shift is 384 - L, whatever the
                 # form of the length (digits, ticks, dots only, omitted)
@@ -216,5 +220,5 @@ def streams(tier, rng, P, only=None, cases=None):
 
 def _len_syn(L):
     """syntax tree (wire form of C04's lenspec) of the few fixed rest lengths used above"""
-    table = {"1": "0:0:1:0", "4": "0:0:4:0", "8.": "0:0:8:1", "2^8": "0:0:2:0;94/0:0:8:0", "%37": "1:0:37:0", "16": "0:0:16:0", "": "0:0:~:0", "%48": "1:0:48:0", ".": "0:0:~:1"}
+    table = {"1": "0:0:1:0", "4": "0:0:4:0", "8.": "0:0:8:1", "2^8": "0:0:2:0;94/0:0:8:0", "%37": "1:0:37:0", "16": "0:0:16:0", "": "0:0:~:0", "%48": "1:0:48:0", ".": "0:0:~:1", "%5": "1:0:5:0", "12": "0:0:12:0"}
     return table[L]
